@@ -1306,7 +1306,8 @@ RULE = ("case = one stream object (StreamBuffer+StreamBufferReader | File | Sock
         "const char*, with byte-order switches (BIG/LITTLE/NATIVE/default) at random points; every write prints the bytes it appended "
         "(observed outside asl); also Array<String>, a StreamBuffer written into itself (whole and a slice), exact and hostile int32 length prefixes "
         "before >> String; then a reader over everything written reads the same types back in the same orders, File/Socket arrays also with >> Array<T> (or unrelated "
-        "types/orders in the cross cases). non-trivial = distinct case that writes at least one multi-byte value and reads a scalar")
+        "types/orders in the cross cases); Socket readers also fed IN PIECES (`readerf`: a peer thread writes the observed bytes cut at arbitrary offsets, each further piece only "
+        "when the reader has drained the previous ones, so a value containing a cut arrives in two or more recv() calls): every multi-byte type x order x every cut offset inside a scalar / an Array element, several cuts in one value, random cuts over random histories. non-trivial = distinct case that writes at least one multi-byte value and reads a scalar")
 
 EXHAUSTIVE = {"quick": "every type x {default,BIG,LITTLE,NATIVE} x {StreamBuffer,File,Socket} on the special values (0, 1, -1, min, max, NaN payloads...) with a mid-stream switch; "
                        "Array<T> for every type x order x class at lengths 0,1,2,3,7,8,9,31,32,33,64,99,100",
@@ -1384,7 +1385,7 @@ LEVEL_NOTE = ("Trusted: Lean kernel, the regex translator + compiler probe, the 
               "derived from Array<T> — Stack, Queue, StreamBuffer — used the raw memory of the handle; ops wd / wdsb / rd; in the model such an object is the Array it is, so "
               "array_canonical / array_get_put apply; that C++ overload resolution reaches the Array overload is K + translator shape check). The stream object's own "
               "view (Socket error(), available() = unread bytes) has no theorem: the model has no failure state for reads of bytes that are there; the harness "
-              "checks error() after every socket operation and the `state` op compares available() with the model's unread byte count (K only). File/Socket >> Array<String> is unmodelled and has no op (it is one >> String per item, so it shares the known finding below: "
+              "checks error() after every socket operation and the `state` op compares available() with the model's unread byte count (K only). That a Socket read does not depend on the pieces in which the bytes arrive (the receive loop of Socket_::read) is K only: op `readerf` delivers the stream cut at arbitrary offsets and the model answers as for `reader`. File/Socket >> Array<String> is unmodelled and has no op (it is one >> String per item, so it shares the known finding below: "
               "<< Array<String> writes no lengths, >> expects one int32 length per item; gen_array_readers only shows that this path goes item by item). The out-of-bounds write "
               "repaired by e37681a is not expressible over lists: it is carried by the translator's whole-body shape check of File::operator>>(String&) and ASan. "
               "Not exercised: >> StreamBuffer through get_, const T[N] / const char[N] objects (string literals go to the const char* overload). "
